@@ -11,7 +11,7 @@ def gen(args):
     from harness import pcovr as P
     rng = np.random.default_rng([sd, wid, 303])
     out = []
-    for t in range(ncases):
+    for t in core.timed(range(ncases)):
         shape = ["tall", "wide", "square", "lowrank", "illcond"][t % 5]
         if shape == "tall":
             n, m = int(rng.integers(6, 9)), int(rng.integers(2, 5))
